@@ -240,14 +240,18 @@ func (g *c13Gen) message(authed bool) (string, map[string]any, map[string]any, b
 			return g.pick([]any{map[string]any{"low": g.num(), "hi": g.num()}}, []any{}, "x", []any{nil}, []any{map[string]any{"low": 1}, map[string]any{"low": 1, "hi": 1000000}})
 		})
 		g.maybe(b, "user", func() any { return g.pick(g.uids[0], g.uids[len(g.uids)-1], "usr", "", 5) })
-		g.maybe(b, "cred", func() any { return g.pick(map[string]any{"meth": "email", "val": "q@example.com"}, "x", map[string]any{}) })
+		g.maybe(b, "cred", func() any {
+			return g.pick(map[string]any{"meth": "email", "val": "q@example.com"}, "x", map[string]any{})
+		})
 		g.maybe(b, "hard", func() any { return g.pick(true, false) })
 	case "note":
 		b["topic"] = topic
 		b["what"] = g.pick("read", "recv", "kp", "kpa", "call", "data", "junk", "", 5)
 		g.maybe(b, "seq", g.num)
 		g.maybe(b, "unread", g.num)
-		g.maybe(b, "event", func() any { return g.pick("ringing", "accept", "hang-up", "offer", "answer", "ice-candidate", "junk", 5) })
+		g.maybe(b, "event", func() any {
+			return g.pick("ringing", "accept", "hang-up", "offer", "answer", "ice-candidate", "junk", 5)
+		})
 		g.maybe(b, "payload", g.str)
 	}
 	if g.rng.Intn(12) == 0 {
